@@ -193,6 +193,14 @@ ReportHop(ev, base, new) ==
         Chk(d = {}, ev, "acc", "conf", {}, [f \in d |-> Acc(v)[f]], [f \in d |-> o.acc[f]])
      /\ LET code == IsVec(v, base, reg, D) IN Chk(o.is = code, ev, "is", "conf", {}, code, o.is)
 
+\* ---- decoding is total (C05): a non-nil error, no panic in DecodeError nor in
+\* any observer applied to the result
+ReportFault(ev) ==
+  LET o == ev.obs IN
+  /\ Chk(o.panic = "", ev, "decode.panic", "verdict", {"C05"}, "", o.panic)
+  /\ Chk(o.panic # "" \/ ~o.nil, ev, "decode.nil", "verdict", {"C05"}, FALSE, o.nil)
+  /\ Chk(o.obsPanics = <<>>, ev, "observer.panic", "verdict", {"C05"}, <<>>, o.obsPanics)
+
 TInit == Init /\ l = 1
 
 TNext ==
@@ -203,7 +211,9 @@ TNext ==
          new == [base EXCEPT ![st.dst] = Build(st, base, reg)]
      IN /\ Enabled(st, base)
         /\ slots' = new
-        /\ IF st.op = "Hop" THEN ReportHop(ev, base, new) ELSE ReportBuild(ev, new)
+        /\ IF st.op = "Hop" THEN ReportHop(ev, base, new)
+           ELSE IF st.op \in {"DecodeFault", "DecodeFuzz"} THEN ReportFault(ev)
+           ELSE ReportBuild(ev, new)
   /\ l' = l + 1
   /\ UNCHANGED <<net, reg>>
 
